@@ -118,7 +118,13 @@ fn gen_val(rng: &mut Rng) -> Vec<u8> {
 /// deterministic-reply commands only (no TIME/INFO/RANDOMKEY/SPOP/KEYS ordering)
 fn gen_cmd(rng: &mut Rng, tok: &mut u32) -> Argv {
     let k = gen_key(rng);
-    match rng.gen_range(0..30) {
+    match rng.gen_range(0..34) {
+        // commands that concern every shard: whatever follows them in the same read has to see them finished
+        // (KEYS with an exact name: at most one element, so the reply does not depend on hash order, and still every shard is asked)
+        30 => vec![b("KEYS"), gen_key(rng)],
+        31 => vec![b("DBSIZE")],
+        32 => vec![b(["FLUSHALL", "FLUSHDB", "flushall"][rng.gen_range(0..3)])],
+        33 => vec![b("keys"), gen_key(rng)],
         0..=6 => vec![case_mix(rng, "GET"), k],
         7..=12 => vec![case_mix(rng, "SET"), k, gen_val(rng)],
         13 => vec![b("SET"), k, gen_val(rng), b(["NX", "XX", "KEEPTTL"][rng.gen_range(0..3)])],
@@ -280,6 +286,19 @@ impl<'a> Judge<'a> {
             Ok(t) => (t, None),
             Err((t, why)) => (t, Some(why)),
         };
+        // KEYS lists in hash order, which differs between two server instances: compared as a multiset
+        let norm = |i: usize, t: &Tree| -> Tree {
+            match t {
+                Tree::Arr(Some(v)) if cmd_name(&cmds[i]).eq_ignore_ascii_case("KEYS") => {
+                    let mut w = v.clone();
+                    w.sort_by_key(|x| format!("{:?}", x));
+                    Tree::Arr(Some(w))
+                }
+                other => other.clone(),
+            }
+        };
+        let trees: Vec<Tree> = trees.iter().enumerate().map(|(i, t)| if i < cmds.len() { norm(i, t) } else { t.clone() }).collect();
+        let expect: Vec<Tree> = expect.iter().enumerate().map(|(i, t)| norm(i, t)).collect();
         for (i, e) in expect.iter().enumerate() {
             match trees.get(i) {
                 None => {
@@ -765,7 +784,21 @@ pub fn reuse_leg(args: &Args) {
                 if !tail.is_empty() {
                     rep.count("connections_dying_mid_frame");
                 }
-                if got != exp {
+                // KEYS lists in hash order, which differs between two server instances
+                let canon = |v: &Vec<Tree>| -> Vec<Tree> {
+                    v.iter()
+                        .enumerate()
+                        .map(|(j, t)| match t {
+                            Tree::Arr(Some(e)) if cmds.get(j).map_or(false, |c| cmd_name(c).eq_ignore_ascii_case("KEYS")) => {
+                                let mut w = e.clone();
+                                w.sort_by_key(|x| format!("{:?}", x));
+                                Tree::Arr(Some(w))
+                            }
+                            other => other.clone(),
+                        })
+                        .collect()
+                };
+                if canon(&got) != canon(&exp) {
                     let earlier_partial = conns[..i].iter().any(|c| !c.1.is_empty());
                     rep.violation(
                         format!("C04|reuse|replies-depend-on-earlier-connection|earlier-died-mid-frame={}", earlier_partial),
